@@ -349,51 +349,88 @@ def run(prop, tier, seed):
     raise HarnessError(f"no check for {prop}")
 
 
+FAMILY_MODULES = {"graph": "family_graph", "str": "family_str", "arch": "family_arch",
+                   "det": "family_det", "err": "family_err", "fs": "family_fs", "mut": "family_mut",
+                   "js": "family_js", "relink": "family_relink"}
+MINIMISABLE = ("graph", "str", "arch")
+
+
+def _family(fam):
+    import importlib
+    if fam not in FAMILY_MODULES:
+        raise HarnessError(f"unknown family {fam}")
+    return importlib.import_module("." + FAMILY_MODULES[fam], __package__)
+
+
+def minimise(v, budget=160):
+    """Schedule minimisation: replace recorded scheduling decisions by 0 ("keep running" / first
+    candidate / no cut) while the same violation signature persists. Returns the replay dict with the
+    minimised decision list, or the original replay if the family isn't schedule-minimisable."""
+    rp = v.replay
+    fam = rp.get("family")
+    if fam not in MINIMISABLE:
+        return rp
+    mod = _family(fam)
+    job = dict(rp["job"])
+    job["prop"] = v.prop
+
+    def fails(decisions):
+        j = dict(job)
+        if decisions is not None:
+            j["decisions"] = decisions
+        j["want_decisions"] = True
+        res = mod.run_job(j)
+        ok = any(x["prop"] == v.prop and x["signature"] == v.signature for x in res["violations"])
+        return ok, res.get("decisions", [])
+
+    ok, base = fails(None)
+    if not ok or not base:
+        return rp
+    ok, _ = fails(base)
+    if not ok:
+        return rp  # replay by decision list doesn't reproduce; keep the seed-based replay
+    used = 2
+    cur = list(base)
+    nz = [i for i, x in enumerate(cur) if x != 0]
+    chunk = max(1, len(nz) // 2)
+    while nz and used < budget:
+        progressed = False
+        i = 0
+        while i < len(nz) and used < budget:
+            part = nz[i:i + chunk]
+            trial = list(cur)
+            for k in part:
+                trial[k] = 0
+            used += 1
+            ok, _ = fails(trial)
+            if ok:
+                cur = trial
+                nz = [k for k in nz if k not in set(part)]
+                progressed = True
+            else:
+                i += chunk
+        if chunk == 1 and not progressed:
+            break
+        chunk = max(1, chunk // 2)
+    # Drop the all-zero tail.
+    while cur and cur[-1] == 0:
+        cur.pop()
+    out = dict(rp)
+    out["job"] = dict(job)
+    out["job"]["decisions"] = cur
+    out["minimised"] = {"decisions_before": len(base), "nonzero_before": sum(1 for x in base if x),
+                        "nonzero_after": sum(1 for x in cur if x), "reruns": used}
+    return out
+
+
 def replay(path):
     with open(path) as f:
         doc = json.load(f)
     rp = doc["replay"]
-    fam = rp["family"]
-    if fam == "graph":
-        from . import family_graph
-        job = dict(rp["job"])
-        job["prop"] = doc["property"]
-        res = family_graph.run_job(job)
-    elif fam == "str":
-        from . import family_str
-        job = dict(rp["job"])
-        job["prop"] = doc["property"]
-        res = family_str.run_job(job)
-    elif fam == "js":
-        from . import family_js
-        res = family_js.run_job(dict(rp["job"]))
-    elif fam == "relink":
-        from . import family_relink
-        res = family_relink.run_job(dict(rp["job"]))
-    elif fam == "mut":
-        from . import family_mut
-        res = family_mut.run_job(dict(rp["job"]))
-    elif fam == "fs":
-        from . import family_fs
-        job = dict(rp["job"])
-        res = family_fs.run_job(job)
-    elif fam == "arch":
-        from . import family_arch
-        job = dict(rp["job"])
-        job["prop"] = doc["property"]
-        res = family_arch.run_job(job)
-    elif fam == "err":
-        from . import family_err
-        job = dict(rp["job"])
-        job["prop"] = doc["property"]
-        res = family_err.run_job(job)
-    elif fam == "det":
-        from . import family_det
-        job = dict(rp["job"])
-        job["prop"] = doc["property"]
-        res = family_det.run_job(job)
-    else:
-        raise HarnessError(f"unknown family {fam}")
+    mod = _family(rp["family"])
+    job = dict(rp["job"])
+    job["prop"] = doc["property"]
+    res = mod.run_job(job)
     for v in res["violations"]:
         if v["prop"] == doc["property"] and v["signature"] == doc["signature"]:
             print(f"VIOLATION property={doc['property']} replay={path}")
